@@ -893,6 +893,17 @@ impl StateMachine for RocksDBStateMachine {
             }
         }
 
+        // The applied index travels in the same atomic batch as the data it describes: after a
+        // crash the state machine must never hold the effects of entries above its recorded
+        // last_applied (they would be applied a second time on restart).
+        if let Some(highest) = highest_index_entry {
+            let meta_cf = db.cf_handle(STATE_MACHINE_META_CF).ok_or_else(|| {
+                StorageError::DbError("State machine meta CF not found".to_string())
+            })?;
+            batch.put_cf(&meta_cf, LAST_APPLIED_INDEX_KEY, highest.index.to_be_bytes());
+            batch.put_cf(&meta_cf, LAST_APPLIED_TERM_KEY, highest.term.to_be_bytes());
+        }
+
         db.write_wbwi(&batch).map_err(|e| StorageError::DbError(e.to_string()))?;
         #[cfg(feature = "__verif")]
         d_engine_core::verif_hooks::crash_point("sm.apply.after_db_write");
